@@ -6,6 +6,7 @@ import (
 	"verif/sim/kit"
 
 	_ "verif/props/eckpt"
+	_ "verif/props/edaisen"
 	_ "verif/props/edet"
 	_ "verif/props/edm"
 	_ "verif/props/emem"
